@@ -69,6 +69,13 @@ CHECKS = {
         "design_ref": "DESIGN.md section 4, C14",
         "level_note": E4_NOTE + " Axioms: in_unit value-preserving (C04), Quantity operators as specified (C03/C06). Not decided: floating-point rounding of the verified formulas.",
     },
+    "C10": {
+        "engine": "E5+E1+E4",
+        "technique": "exact affine-map composition over the declared temperature graph (E5, rationals from literal text) + order rules on convert/_plan_conversion (list-order abstraction) + translate store identities (E4) + comparison normal forms",
+        "level_text": "Equality of the two coefficients of an affine map is equality for all magnitudes: the 12 composed maps are compared exactly with the definitions; the graph is shown to be a tree with leaf scales; multiply-then-offset within a hop and prefix-step-last across the plan are decided structurally, so prefixed targets scale the offsets too (one fix: commit). Cross-scale comparisons are shown to compare converted magnitudes.",
+        "design_ref": "DESIGN.md section 4, C10",
+        "level_note": "Trusted: E5's declaration model; assumption that the planner follows the unique simple path of the temperature tree (the tree shape is checked). Not decided: floating-point rounding of round trips.",
+    },
     "C11": {
         "engine": "E1+E4+E5",
         "technique": "abstract interpretation of Prefix/Unit operators (prefix component, log-value identities), value-preservation normal forms for quantify/unprefixed, def-use rule on convert/_plan_conversion, declared-prefix table from E5",
